@@ -35,6 +35,11 @@ def run(R):
             # the same row read as a response row: a header / cookie annotated field of that type holding that value
             if c["src"] in ("header", "cookie") and not c["ty"].startswith("list_"):
                 f.write(json.dumps(dict(kind="hrv", ty=c["ty"], v=c["v"], src=c["src"])) + "\n")
+                # ... and with a second annotation that cannot deliver on a response listed first (errors omitted)
+                f.write(json.dumps(dict(kind="hrv", ty=c["ty"], v=c["v"], src=c["src"], two=True)) + "\n")
+        # on the response side the empty string is a value too
+        for two in (False, True):
+            f.write(json.dumps(dict(kind="hrv", ty="string", v=[], src="header", two=two)) + "\n")
     R.extra_cov["tlc_conversion_rows_replayed"] = len(hv)
     tr = os.path.join(R.scratch, "c17.ndjson")
     R.drive("c17", "out=" + tr, "cases=" + cf, "responses=1", timeout=3000)
